@@ -628,6 +628,39 @@ def encode_number_facts(program, n, signed, res):
 
 NOT_DETERMINED = 'not determined'
 
+def enc_number_points(program, n, signed, res, rows):
+    """encode_number decided on points when its residual is not of the piecewise form: the residual (terms, never repository code) is evaluated at
+    values k * resolution for tick counts k around every place the answer changes -- 0, 1, the range ends, the not-available code, just outside the
+    range, negative counts for signed fields -- and at None.  Expected: k (k >= 0), k + 2^n (k < 0) inside the encodable range, ValueError outside,
+    the not-available code for None.  -> list of (description of the point, expected, got); raises teval.EvalUnknown when not evaluable"""
+    from . import teval
+    half, top = 1 << (n - 1), (1 << n) - 1
+    lo, hi = (-half, half - 2) if signed else (0, top - 1)
+    if n < 2 and not signed:
+        hi = top
+    ks = {0, 1, 2, hi - 1, hi, hi + 1, hi + 2, lo, lo + 1, lo - 1, (lo + hi) // 2, 7, 100, -1, -2, 1 << n, (1 << n) + 3}
+    bad = []
+    for k in sorted(ks):
+        v = k * res
+        try:
+            q = int(round(v / res))
+        except (OverflowError, ZeroDivisionError):
+            continue
+        if q != k or (n < 2 and k == top):
+            continue          # the product is not exactly on the tick (float): not a clean point; (1-bit fields: both readings of the top code are accepted)
+        got = _eval_rows(rows, {'$V': v})
+        if lo <= k <= hi:
+            want = ('return', k if k >= 0 else k + (1 << n))
+        else:
+            want = ('raise', 'ValueError')
+        if got != want and not (got[0] == 'return' and want[0] == 'return' and isinstance(got[1], (int, float)) and not isinstance(got[1], bool) and got[1] == want[1]):
+            bad.append((f"value {v!r} = {k} ticks", want, got))
+    got = _eval_rows(rows, {'$V': None})
+    want = ('return', expected_na(n, signed))
+    if got != want and n >= 2:
+        bad.append(('value None', want, got))
+    return bad
+
 def _decoder_points(program, n, signed):
     """decode_number (resolution 1, wide range) evaluated on raw values: -> {raw: outcome}"""
     rows = residual(program, 'decode_number', {'data_raw': D, 'bit_offset': C(0), 'bit_length': C(n), 'signed': C(signed), 'resolution': C(1),
@@ -728,7 +761,20 @@ def sent_sign_agree(chk, program, sites=None):
         users = [u for (n2, s2, r), us in nt.items() if (n2, s2) == (n, s) for u in us]
         inst = f"bits={n},signed={s}"
         if f['problems']:
-            chk.unknown('SENT-AGREE', f"encode_number::{inst}", f"encode_number not read: {f['problems'][0]}", UT, f['line'])
+            from . import teval
+            try:
+                bad = enc_number_points(program, n, s, res, f['rows'])
+                if dna == NOT_DETERMINED or (n >= 2 and dna is None):
+                    raise teval.EvalUnknown('decoder constant not determined')
+                gna = _eval_rows(f['rows'], {'$V': None})
+            except (teval.EvalUnknown, KeyError, TypeError, ValueError, ZeroDivisionError, OverflowError, AnalysisError) as u:
+                chk.unknown('SENT-AGREE', f"encode_number::{inst}", f"encode_number not read: {f['problems'][0]}", UT, f['line'])
+                continue
+            chk.check(n < 2 or gna == ('return', dna), 'SENT-AGREE', f"encode_number::{inst}", file=UT, line=f['line'], func='encode_number',
+                      expected=f"encoder's pattern for None == decoder's not-available constant ({dna})", found=gna, detail='decided on points')
+            wrapbad = [b for b in bad if b[1][0] == 'return' and b[0] != 'value None']
+            chk.check(not wrapbad, 'SIGN-AGREE', f"encode_number::{inst}", file=UT, line=f['line'], func='encode_number',
+                      expected='in-range tick counts written as themselves (negative ones in two\'s complement)', found='ok (on points)' if not wrapbad else [f"{d}: expected {w}, got {g}" for d, w, g in wrapbad[:3]])
             continue
         if dna == NOT_DETERMINED:
             chk.unknown('SENT-AGREE', f"encode_number::{inst}", "the decoder's not-available code could be neither read off decode_number nor found by evaluating it", UT, f['line'])
@@ -777,9 +823,18 @@ def enc_range(chk, program):
         f = encode_number_facts(program, n, s, res)
         inst = f"encode_number@bits={n},signed={s},res={res}"
         us = f"{len(users)} fields, e.g. {users[0][0].key}:{users[0][1].dbid}"
-        for p in f['problems']:
-            chk.unknown('ENC-RANGE', inst, p, UT, f['line'])
         if f['problems']:
+            # not of the piecewise form: decided on points when the residual can be evaluated, else no verdict
+            from . import teval
+            try:
+                bad = enc_number_points(program, n, s, res, f['rows'])
+            except (teval.EvalUnknown, KeyError, TypeError, ValueError, ZeroDivisionError, OverflowError, AnalysisError) as u:
+                for p in f['problems']:
+                    chk.unknown('ENC-RANGE', inst, p + f" / not evaluable on points: {type(u).__name__}: {u}"[:120], UT, f['line'])
+                continue
+            chk.check(not bad, 'ENC-RANGE', inst, file=UT, line=f['line'], func='encode_number',
+                      expected='k ticks are written as k (two\'s complement for k < 0) inside the range, ValueError outside, the not-available code for None',
+                      found='ok (on points)' if not bad else [f"{d}: expected {w}, got {g}" for d, w, g in bad[:4]], detail=us)
             continue
         lo, hi = (-(1 << (n - 1)), (1 << (n - 1)) - 2) if s else (0, (1 << n) - 2)
         if n < 2:
